@@ -447,7 +447,75 @@ _COMMON = ["real Aggregator/FromFrontend over a fake dispatcher (records rpc_cal
            "a request that is answered without looking up the target at all (no aggregator or repository access) is not counted as reading its data",
            "log statements removed at import"]
 
+
+# ---------------------------------------------------------------------------------------------------
+# offline units over the real database: required roles change between an engine's sessions
+# ---------------------------------------------------------------------------------------------------
+def _offline_history_case(role_sets, user):
+    """Real RecentEngineRepository.store_recent_engine + SQLAlchemy + sqlite (temporary file): the same engine is stored
+    once per session with that session's required roles; then the real listing route is asked. -> (listed?, stored roles)"""
+    import os
+    import shutil
+    import tempfile
+    import openpectus.aggregator.models as Mdl
+    import openpectus.aggregator.data.models as Db
+    import openpectus.protocol.models as P
+    from openpectus.aggregator.data import database
+    from openpectus.aggregator.data.repository import RecentEngineRepository
+    from openpectus.aggregator.routers import process_unit
+    saved = (database._engine, database._sessionmaker)
+    tmp = tempfile.mkdtemp(prefix="c32db")
+    try:
+        database.configure_db("sqlite:///" + os.path.join(tmp, "a.sqlite3"))
+        Db.DBModel.metadata.create_all(database._engine)
+        for roles in role_sets:
+            ed = _make_unit(Mdl, P, OFFLINE_UNIT, roles)
+            ed.run_data = None
+            with database.create_scope():
+                RecentEngineRepository(database.scoped_session()).store_recent_engine(ed)
+
+        class NoOnlineUnits:
+            def get_all_registered_engine_data(self):
+                return []
+        with database.create_scope():
+            units = process_unit.get_units(set(user), NoOnlineUnits())
+            stored = RecentEngineRepository(database.scoped_session()).get_recent_engines()
+            stored_roles = [sorted(r.required_roles or []) for r in stored]
+        database._engine.dispose()
+        return any(u.id == OFFLINE_UNIT for u in units), stored_roles
+    finally:
+        database._engine, database._sessionmaker = saved
+        shutil.rmtree(tmp, ignore_errors=True)
+
+
+def harness_offline_history(sym):
+    universe = ROLES[:2]
+    n = sym.shard["sessions"]
+    role_sets = [[r for r in universe if sym.bool(f"session{k}_requires_{r}")] for k in range(n)]
+    user = [r for r in universe if sym.bool(f"user_has_{r}")]
+    with sym.concrete():
+        listed, stored = _offline_history_case(role_sets, user)
+    last = role_sets[-1]
+    desc = f"required roles per session {role_sets}, user roles {user}: listed={listed}, stored roles {stored}"
+    if last and not (set(last) & set(user)):
+        sym.check(not listed, "offline-listing|history|listed-without-role", desc)
+    if not last:
+        sym.check(listed, "offline-listing|history|open-unit-hidden", desc)
+    if last and (set(last) & set(user)):
+        sym.check(listed, "offline-listing|history|hidden-from-role-holder", desc)
+
+
 OBLIGATIONS = [
+    Obligation(
+        name="offline_roles_history", kind="crosshair", harness=harness_offline_history, decides="concrete",
+        shards=lambda tier: [{"sessions": k} for k in ((1, 2) if tier == "quick" else (1, 2, 3))], cpu_budget={"quick": 120.0, "thorough": 600.0},
+        encoded=["openpectus.aggregator.data.repository:RecentEngineRepository.store_recent_engine", "openpectus.aggregator.data.repository:RecentEngineRepository.get_recent_engines",
+                 "openpectus.aggregator.routers.process_unit:get_units", "openpectus.aggregator.routers.auth:has_access"],
+        symbolic="one membership bit per role for the unit's required roles in each of its sessions and for the user's roles",
+        bounds={"quick": "the same engine stored 1..2 times (sessions) with independently chosen required roles over a 2-role universe, then the listing for any user role set",
+                "thorough": "1..3 sessions"},
+        assumptions=["decided by a concrete run per assignment of the bits: the real repository, SQLAlchemy ORM and sqlite (temporary database file) run untraced",
+                     "only the offline half of the listing (no unit is online)"]),
     Obligation(
         name="target_routes", kind="crosshair", harness=harness_target, shards=_target_shards,
         cpu_budget={"quick": 80.0, "thorough": 600.0},
